@@ -2,6 +2,7 @@
 //! reference encoder/hasher and the Rust renderer of generated subject programs.
 
 pub mod borrows;
+pub mod decode;
 pub mod fixedgen;
 pub mod format;
 pub mod gen;
